@@ -13,6 +13,8 @@ compilation-path model (lean/MakoModel/Paths8/Model.lean) is parameterised by:
                                     - whether the three sets codegen prints (to_write, argument_declared, the declared
                                       identifiers of a <% %> block) and the names of the NameConflictError messages are
                                       walked through sorted() (then the generated module does not depend on PYTHONHASHSEED);
+* `directoriesKeepOrder`            - TemplateLookup.__init__ builds self.directories as a list comprehension over
+                                      util.to_list(directories) (search order = configuration order);
 * `headerFormats`                   - the format strings of the `self.printer.writeline(...)` calls of
                                       `_GenerateRenderMethod.write_toplevel`, in source order, up to and including the
                                       `_exports` line (a bare name argument, as in `writeline(imp)`, is recorded as
@@ -156,6 +158,28 @@ def _conflict_sorted(tree, rel):
     return all(res)
 
 
+def _directories_keep_order(repo):
+    """TemplateLookup.__init__: `self.directories = [f(d) for d in util.to_list(directories, ...)]` (a list built in
+    the order of the configured list) -> True; a set / set comprehension anywhere in the expression -> False"""
+    rel = "mako/lookup.py"
+    tl = parse(repo, rel)
+    init = find_func(find_class(tl, "TemplateLookup", rel).body, "__init__", rel)
+    vals = [n.value for n in ast.walk(init) if isinstance(n, ast.Assign) and len(n.targets) == 1
+            and _dotted(n.targets[0]) == "self.directories"]
+    if len(vals) != 1:
+        raise RegenError("%s: expected exactly one assignment to self.directories, found %d" % (rel, len(vals)))
+    v = vals[0]
+    for n in ast.walk(v):
+        if isinstance(n, (ast.Set, ast.SetComp)) or (isinstance(n, ast.Call) and _dotted(n.func) in ("set", "frozenset", "sorted")):
+            return False
+    if isinstance(v, ast.ListComp) and len(v.generators) == 1 and not v.generators[0].ifs \
+            and isinstance(v.generators[0].iter, ast.Call) and _dotted(v.generators[0].iter.func) == "util.to_list" \
+            and v.generators[0].iter.args and isinstance(v.generators[0].iter.args[0], ast.Name) \
+            and v.generators[0].iter.args[0].id == "directories":
+        return True
+    raise RegenError("%s: shape of `self.directories = ...` not understood: %s" % (rel, ast.dump(v)[:160]))
+
+
 @group("Paths8")
 def gen(repo) -> str:
     tt = parse(repo, TEMPLATE)
@@ -216,6 +240,9 @@ def gen(repo) -> str:
            "def codeBlockNamesSorted : Bool := %s" % b(c_sorted),
            "/-- both `NameConflictError` messages join `sorted(illegal_names)` -/",
            "def conflictMessagesSorted : Bool := %s" % b(m_sorted), "",
+           "/-- `TemplateLookup.__init__`: `self.directories` is a list built in the order of the configured directories",
+           "    (false: it goes through a set, so the search order is the set's iteration order) -/",
+           "def directoriesKeepOrder : Bool := %s" % b(_directories_keep_order(repo)), "",
            "/-- format strings of the `printer.writeline` calls of `write_toplevel`, in source order, up to `_exports` -/",
            "def headerFormats : List String := [",
            ",\n".join("  " + lean_string(f) for f in fmts),
